@@ -108,7 +108,8 @@ pub fn random_rq(rng: &mut StdRng) -> RqCfg {
     let body_m = matches!(method, "POST" | "PUT" | "PATCH");
     let ver10 = matches!(method, "GET" | "HEAD" | "POST") && rng.gen_bool(0.3);
     let despite = !body_m && rng.gen_bool(0.3);
-    let framing = if body_m || despite { ["default", "cl0", "cl2", "chunked"][rng.gen_range(0..4)] } else { "default" };
+    // now and then a request that is refused at the first write (framing headers on a method that takes no body)
+    let framing = if body_m || despite || rng.gen_bool(0.08) { ["default", "cl0", "cl2", "chunked"][rng.gen_range(0..4)] } else { "default" };
     RqCfg {
         method: method.into(),
         ver10,
@@ -391,7 +392,41 @@ pub fn c10(o: &Opts, t: &mut Tracer) -> Value {
             }
         }
     }
-    json!({"combinations": n})
+    // a 3xx head cut after a complete Location line (known finding KF1 makes the code answer early): whatever else
+    // the head says (Connection: keep-alive ...), the connection has lost its message boundary and must close
+    let mut ntrunc = 0;
+    for (k, conn) in ["", "Connection: keep-alive\r\n", "connection: Keep-Alive\r\nX-A: 1\r\n", "Connection: keep-alive\r\nConnection: keep-alive\r\n"].iter().enumerate() {
+        for status in [301u16, 302, 307, 308] {
+            for tail in ["", "X-More: 1\r\n", "X-More: 1\r\nSet-Coo"] {
+                for conn_after in [false, true] {
+                    let head = if conn_after {
+                        format!("HTTP/1.1 {} Moved\r\nLocation: /next\r\n{}{}", status, conn, tail)
+                    } else {
+                        format!("HTTP/1.1 {} Moved\r\n{}Location: /next\r\n{}", status, conn, tail)
+                    };
+                    let rq = RqCfg { method: "GET".into(), ver10: false, expect: false, connclose: false, despite: false, framing: "default".into(), conn_other: None };
+                    let mut sim = match Sim::new(t, rq, None, k, "c10-truncated-3xx") {
+                        Some(s) => s,
+                        None => continue,
+                    };
+                    ntrunc += 1;
+                    t.sig(format!("c10/trunc/{}/{}/{}/{}", k, status, tail.len(), conn_after));
+                    sim.op_proceed(t);
+                    sim.op_sr_write(t, true);
+                    sim.op_proceed(t);
+                    sim.try_response_raw(t, "truncated3xx", head.as_bytes(), status);
+                    if sim.final_seen {
+                        t.class("c10:truncated-3xx-answered");
+                        sim.op_proceed(t);
+                        sim.op_verdict(t);
+                        sim.op_proceed(t);
+                        sim.op_verdict(t);
+                    }
+                }
+            }
+        }
+    }
+    json!({"combinations": n, "truncated_3xx": ntrunc})
 }
 
 pub fn c11(o: &Opts, t: &mut Tracer) -> Value {
@@ -402,7 +437,7 @@ pub fn c11(o: &Opts, t: &mut Tracer) -> Value {
     for round in 0..rounds {
         for ver10 in [false, true] {
             for (ki, kind) in kinds.iter().enumerate() {
-                for variant in 0..4usize {
+                for variant in 0..6usize {
                     let early = EarlyMsg::new(kind, variant);
                     let total = early.bytes.len();
                     // the caller looks at every prefix length (cumulatively re-presented), then both later paths
